@@ -429,3 +429,75 @@ func verifLemmaResponsesLookup(r Responses, token string) (interface{}, error, [
 	}
 	return v, err, b
 }
+
+func verifLemmaSwaggerLookup(s Swagger, token string) (interface{}, error, []byte) {
+	v, err := s.JSONLookup(token)
+	b, merr := s.MarshalJSON()
+	if merr != nil {
+		return nil, nil, nil
+	}
+	return v, err, b
+}
+
+func verifLemmaSchemaLookup(s Schema, token string) (interface{}, error, []byte) {
+	v, err := s.JSONLookup(token)
+	b, merr := s.MarshalJSON()
+	if merr != nil {
+		return nil, nil, nil
+	}
+	return v, err, b
+}
+
+func verifLemmaPathItemLookup(p PathItem, token string) (interface{}, error, []byte) {
+	v, err := p.JSONLookup(token)
+	b, merr := p.MarshalJSON()
+	if merr != nil {
+		return nil, nil, nil
+	}
+	return v, err, b
+}
+
+func verifLemmaOperationLookup(o Operation, token string) (interface{}, error, []byte) {
+	v, err := o.JSONLookup(token)
+	b, merr := o.MarshalJSON()
+	if merr != nil {
+		return nil, nil, nil
+	}
+	return v, err, b
+}
+
+func verifLemmaResponseLookup(r Response, token string) (interface{}, error, []byte) {
+	v, err := r.JSONLookup(token)
+	b, merr := r.MarshalJSON()
+	if merr != nil {
+		return nil, nil, nil
+	}
+	return v, err, b
+}
+
+func verifLemmaInfoLookup(i Info, token string) (interface{}, error, []byte) {
+	v, err := i.JSONLookup(token)
+	b, merr := i.MarshalJSON()
+	if merr != nil {
+		return nil, nil, nil
+	}
+	return v, err, b
+}
+
+func verifLemmaSecuritySchemeLookup(s SecurityScheme, token string) (interface{}, error, []byte) {
+	v, err := s.JSONLookup(token)
+	b, merr := s.MarshalJSON()
+	if merr != nil {
+		return nil, nil, nil
+	}
+	return v, err, b
+}
+
+func verifLemmaTagLookup(t Tag, token string) (interface{}, error, []byte) {
+	v, err := t.JSONLookup(token)
+	b, merr := t.MarshalJSON()
+	if merr != nil {
+		return nil, nil, nil
+	}
+	return v, err, b
+}
